@@ -163,6 +163,72 @@ impl Blob
         );
     }
 
+    /*  For use after the targets have been resolved without running the command.  A target that
+        was recovered or downloaded is a different file than the one the blob's FileState describes,
+        and it keeps its own, older modified-time.  So for those targets this function skips the
+        timestamp optimization, takes the ticket from the file itself, and updates the FileState. */
+    pub fn get_file_state_vec_after_resolution<SystemType: System>
+    (
+        self : &mut Self,
+        system : &SystemType,
+        resolutions : &Vec<FileResolution>,
+    )
+    -> Result<FileStateVec, GetFileStateError>
+    {
+        let mut tickets = vec![];
+        for (i, target_info) in self.file_infos.iter_mut().enumerate()
+        {
+            let untouched = match resolutions.get(i)
+            {
+                Some(FileResolution::AlreadyCorrect) => true,
+                _ => false,
+            };
+
+            let ticket_result =
+            if untouched
+            {
+                get_file_ticket(system, &target_info.path, &target_info.file_state)
+            }
+            else
+            {
+                get_file_ticket_from_path(system, &target_info.path)
+            };
+
+            match ticket_result
+            {
+                Ok(Some(ticket)) =>
+                {
+                    if ! untouched
+                    {
+                        target_info.file_state = FileState
+                        {
+                            ticket : ticket.clone(),
+                            timestamp : match system.get_modified(&target_info.path)
+                            {
+                                Ok(system_time) => match get_timestamp(system_time)
+                                {
+                                    Ok(timestamp) => timestamp,
+                                    Err(_) => 0,
+                                },
+                                Err(_) => 0,
+                            },
+                            executable : match system.is_executable(&target_info.path)
+                            {
+                                Ok(executable) => executable,
+                                Err(_) => false,
+                            },
+                        };
+                    }
+                    tickets.push(ticket);
+                },
+                Ok(None) => return Err(GetFileStateError::FileNotFound(target_info.path.clone())),
+                Err(error) => return Err(GetFileStateError::ReadWriteError(target_info.path.clone(), error)),
+            }
+        }
+
+        return Ok(FileStateVec::from_ticket_vec(tickets));
+    }
+
     /*  Takes a system, and updates the file contents in the blob to reflect the files in the system.
         Returns a vector of FileStates which is current according to the file system. */
     pub fn update_to_match_system_file_state<SystemType: System>
